@@ -52,6 +52,13 @@ package server
 //@
 //@ # C17: the one reply the decoded entry builds ahead of the pipeline (FORMERR for a question count other than one)
 //@ # goes only to an admitted source
+//@ # C17: the admission test the server consults is a handler OF ITS OWN PIPELINE that offers one (the access list)
+//@ func New
+//@   abstract
+//@   nosafety all pre
+//@   assert at store server.Server.admit#1: ok && value == a
+//@   assert at call (*middleware.Pipeline).Handlers#2: arg0 == s.pipeline
+//@
 //@ func (*Server).serveMsgBy
 //@   abstract
 //@   nosafety all pre
